@@ -26,6 +26,7 @@ Export ListNotations.
 Local Open Scope N_scope.
 
 Record probe := {
+  pr_segs : list N;                    (* *.wal ids present once the image DB is open *)
   pr_kvs : list (N * option N);        (* key -> Get *)
   pr_raft : list (N * res obs)         (* group -> reopened storage *)
 }.
@@ -88,7 +89,20 @@ Definition classify_removal (s s' : st) (o : wop) (id : N) : N :=
   | _ => 0
   end.
 
+Definition groups_in (s : st) (ids : list N) : list N :=
+  flat_map (fun id =>
+    match seg_recs (s_segs s) id with
+    | Some rs => filter (seg_has_group rs) [1; 2]
+    | None => []
+    end) ids.
+
+(** the image DB runs lsm.recovery first: its removals are observed through
+    the files present afterwards (it may also have created a new segment) *)
 Definition eval_probe (a : acc) (s : st) (ops : list wop) (p : probe) : bool * list N :=
+  let gone := removed_between (k_files a) (pr_segs p) in
+  let mis_rm := negb (listN_eqb gone (recovery_removed s)) in
+  let vio_rm := map (fun id => if lsm_needed_b s s id then 0 else 1) (filter (needed_b s s) gone) in
+  let lost := k_lost_group a ++ groups_in s gone in
   let mis_kv := negb (forallb (fun kv => optN_eqb (snd kv) (recovered_get s (fst kv))) (pr_kvs p)) in
   let mis_raft := negb (forallb (fun gr => robs_eqb (snd gr) (recovered_raft s (fst gr))) (pr_raft p)) in
   let vio_kv :=
@@ -97,8 +111,8 @@ Definition eval_probe (a : acc) (s : st) (ops : list wop) (p : probe) : bool * l
   let vio_raft :=
     flat_map (fun gr =>
       if raft_recovered_ok_b (fst gr) ops (snd gr) then []
-      else [if existsb (N.eqb (fst gr)) (k_lost_group a) then 4 else 0]) (pr_raft p) in
-  (mis_kv || mis_raft, vio_kv ++ vio_raft).
+      else [if existsb (N.eqb (fst gr)) lost then 4 else 0]) (pr_raft p) in
+  (mis_rm || mis_kv || mis_raft, vio_rm ++ vio_kv ++ vio_raft).
 
 Definition eval_step (a : acc) (w : wstep) : acc :=
   let s := k_st a in
@@ -108,11 +122,7 @@ Definition eval_step (a : acc) (w : wstep) : acc :=
   let gone := removed_between (k_files a) (w_segs w) in
   let bad := filter (needed_b s s') gone in
   let vio1 := map (classify_removal s s' o) bad in
-  let lost := flat_map (fun id =>
-                match seg_recs (s_segs s) id with
-                | Some rs => filter (seg_has_group rs) [1; 2]
-                | None => []
-                end) gone in
+  let lost := groups_in s gone in
   let wd := k_wd_lsm a || existsb (fun id => match o with WWatchdog => lsm_needed_b s s' id | _ => false end) gone in
   let mis1 := negb (listN_eqb (seg_ids (s_segs s')) (w_segs w)) ||
               negb (forallb (ptr_matches s') (w_ptrs w)) in
@@ -140,8 +150,8 @@ Definition check (c : case) : verdict :=
 Definition H := HS.
 Definition Ob (h : hardstate) (si st fi la : N) (es : list (N * entry)) : obs :=
   {| o_hs := h; o_snapi := si; o_snapt := st; o_first := fi; o_last := la; o_ents := es |}.
-Definition Pr (kvs : list (N * option N)) (rs : list (N * res obs)) : probe :=
-  {| pr_kvs := kvs; pr_raft := rs |}.
+Definition Pr (segs : list N) (kvs : list (N * option N)) (rs : list (N * res obs)) : probe :=
+  {| pr_segs := segs; pr_kvs := kvs; pr_raft := rs |}.
 Definition Ws (o : wop) (segs : list N) (ptrs : list (N * (N * N * N))) (p : option probe) : wstep :=
   {| w_op := o; w_segs := segs; w_ptrs := ptrs; w_probe := p |}.
 Definition Cs (ids : list N) (active : N) (l : list wstep) : case :=
